@@ -217,12 +217,14 @@ static void File_Close(var self) {
     throw(IOError, "Cannot close file - no file open.");
   }
   
-  int err = fclose(f->file);
+  /* The stream is gone after fclose, whether or not it reports an error */
+  FILE* file = f->file;
+  f->file = NULL;
+  
+  int err = fclose(file);
   if (err != 0) {
     throw(IOError, "Failed to close file: %i", $I(err));
   }
-  
-  f->file = NULL;
 }
 
 static void File_Seek(var self, int64_t pos, int origin) {
